@@ -512,12 +512,33 @@ func (vc *FnVC) elabModItem(env *Env, item string) (out []modItem, err error) {
 		}
 	}()
 	item = strings.TrimSpace(item)
+	if strings.HasPrefix(item, "typeof ") {
+		// every object of the named struct type (any ref): for objects reached through
+		// maps or pointer fields whose identity the contract cannot name
+		t := env.resolveTypeText(strings.TrimSpace(strings.TrimPrefix(item, "typeof ")))
+		st := structOf(t)
+		if st == nil {
+			return nil, fmt.Errorf("typeof wants a struct type")
+		}
+		for i := 0; i < st.NumFields(); i++ {
+			if isObjectType(st.Field(i).Type()) {
+				continue
+			}
+			c, _ := vc.fieldComp(t, i)
+			out = append(out, modItem{text: item, kind: "anyref", owner: t, field: i, comp: c})
+		}
+		return out, nil
+	}
 	if strings.HasSuffix(item, "[..]") {
 		x, perr := ParseSpecExpr(strings.TrimSuffix(item, "[..]"))
 		if perr != nil {
 			return nil, perr
 		}
 		t := env.elab(x)
+		if mt, ok := typeUnder[*types.Map](t.T); ok {
+			vC, _, hC, _ := vc.mapComps(mt.Key(), mt.Elem())
+			return []modItem{{text: item, kind: "field", ref: t.S, comp: vC}, {text: item, kind: "field", ref: t.S, comp: hC}}, nil
+		}
 		if t.Sort == "Slice" {
 			st, _ := typeUnder[*types.Slice](t.T)
 			c, _ := vc.elemComp(st.Elem())
@@ -641,6 +662,8 @@ func (vc *FnVC) checkWrite(comp, ref, idx, what string, pos token.Pos) {
 			continue
 		}
 		switch m.kind {
+		case "anyref":
+			return
 		case "field", "elems":
 			alts = append(alts, fmt.Sprintf("(= %s %s)", ref, m.ref))
 		case "range":
